@@ -393,7 +393,7 @@ def _spellings_for(tier, seed, level):
             rnd = random.Random(seed)
             qs = set(quick)
             rest = [s for s in allsp if s not in qs]
-            extra = rnd.sample(rest, min(len(rest), 4 if level == 'core' else 60))
+            extra = rnd.sample(rest, min(len(rest), 4 if level == 'core' else 30))
             _SP_CACHE[key] = quick + extra
         else:
             _SP_CACHE[key] = gen.spellings(tier, seed, level)
